@@ -28,6 +28,10 @@ func main() {
 	dump := flag.String("dump", "", "debug: dump SSA of pkg:func (e.g. proxy:(*request).OnResult)")
 	selftest := flag.String("selftest", "", "thorough tier: JSON summary of the sensitivity self-test to embed in the evidence")
 	flag.Parse()
+	if h, ok := debugHooks[*dump]; ok {
+		h(loadProgram(loadOpts{Dir: *repo}))
+		return
+	}
 	if *dump != "" {
 		p := loadProgram(loadOpts{Dir: *repo})
 		i := strings.Index(*dump, ":")
@@ -65,6 +69,8 @@ func main() {
 }
 
 var selftestFile string
+
+var debugHooks = map[string]func(p *Prog){}
 
 func run(prop, repo, verif, tier string, seed int) (code int) {
 	start := time.Now()
@@ -126,4 +132,14 @@ func run(prop, repo, verif, tier string, seed int) (code int) {
 		}
 	}
 	return first.finish(verif, tier, seed, start, extra)
+}
+
+func init() {
+	debugHooks["shadows"] = func(p *Prog) {
+		for _, rel := range []string{"proxy", "proxycore", "parser", "codecs", "astra"} {
+			for _, f := range staleShadows(p, rel) {
+				fmt.Printf("shadow %s %s in %s\n", f.Where, f.Name, f.Func)
+			}
+		}
+	}
 }
